@@ -74,6 +74,16 @@ def run_common(prop, stable, tier, seed):
         run.add_mc("StableAbs MaxIx=2 W={1}", tlc(spec, "MCStableAbsQuick.cfg", workers=10, timeout=600))
     else:
         run.add_mc("%s MaxIx=3 W={1}" % spec.split("/")[1], tlc(spec, cfg, workers=10, timeout=1800))
+    # implementation-shaped model: linked lists / free lists as coded, structural invariants + refinement
+    impl = "graph/StableImpl" if stable else "graph/GraphImpl"
+    icfg = "MCStableImpl.cfg" if stable else "MCGraphImpl.cfg"
+    if stable and not thorough:
+        q = open(os.path.join(SPEC, "graph", icfg)).read().replace("MaxIxC = 3", "MaxIxC = 2")
+        open(os.path.join(SPEC, "graph", "out_MCStableImpl2.cfg"), "w").write(q)
+        run.add_mc("StableImpl => StableAbs MaxIx=2", tlc(impl, "out_MCStableImpl2.cfg", workers=10, timeout=900))
+        os.remove(os.path.join(SPEC, "graph", "out_MCStableImpl2.cfg"))
+    else:
+        run.add_mc("%s => Abs MaxIx=3" % impl.split("/")[1], tlc(impl, icfg, workers=10, timeout=1800))
     st = ["--stable"] if stable else []
     cover_stage(run, prop, stable, (4 if stable else 2) if thorough else (40 if stable else 12), seed)
     drive(run, "random histories", ["mg-random", "--seed", seed, "--segments", 210 if thorough else 56, "--len", 120 if thorough else 70] + st, prop)
